@@ -6,7 +6,10 @@ Three levels of content per file (inode):
     inode.disk       durable content := inode.os at the last fsync of that inode
 Stated assumptions of the model: name-space operations (create, rename) are atomic and durable at
 once; rename replaces the destination; a truncating open empties `os` at once and `disk` at the next
-fsync; text == bytes (ASCII only); no I/O errors other than ENOENT / EEXIST.
+fsync; text == bytes (ASCII only); no I/O errors other than ENOENT / EEXIST, plus two optional
+environment faults a harness may inject: `fs.rename_fail_at = n` (the n-th os.rename call raises
+OSError(EIO) and changes nothing; n may be symbolic) and `fs.remove_external(path)` (another actor
+deletes a file between two operations of the process).
 
 `install(fs)` puts the double into ioflo.base.logging (`os`) and ioflo.aid.filing (`os`, `open`), so the
 *real* `ocfn`, `Log.reopen/flush/close/cycle` and `Logger.createPath` run against it.
@@ -165,7 +168,13 @@ class _Os(object):
         fs = self._fs
         if fs.dead:
             return
+        fs.nrenames += 1
+        if fs.rename_fail_at is not None and fs.nrenames == fs.rename_fail_at:
+            # injected environment fault: this rename call fails and changes nothing
+            fs._event("rename-failed", src=src, dst=dst, why="EIO", count=False)
+            raise OSError(errno.EIO, "Input/output error", src)
         if src not in fs.files:
+            fs._event("rename-failed", src=src, dst=dst, why="ENOENT", count=False)
             raise FileNotFoundError(errno.ENOENT, "No such file or directory", src)
         gone = fs.files.get(dst)
         fs.files[dst] = fs.files.pop(src)
@@ -213,6 +222,8 @@ class MemFS(object):
         self.hook = None     # hook(fs, event, info) after every event
         self.realize = None  # set to sym.realize by harnesses running under the symbolic engine
         self.crash_at = None
+        self.nrenames = 0    # os.rename calls so far
+        self.rename_fail_at = None   # environment fault: the rename call with this number raises OSError(EIO); may be symbolic
         self.crash = None    # dict(os=..., disk=...) taken when the process died
         self.dead = False
         self.os = _Os(self)
@@ -264,6 +275,13 @@ class MemFS(object):
     def put(self, path, text):
         """pre-existing durable file"""
         self.files[path] = Inode(text, text)
+
+    def remove_external(self, path):
+        """environment fault: somebody else deletes a file (not an operation of the process: no crash point)"""
+        gone = self.files.pop(path, None)
+        if gone is not None:
+            self._event("external-remove", src=path, replaced=gone, count=False)
+        return gone
 
     def view(self, level):
         """{path: content} as seen after a process kill ('os') or a machine crash ('disk')"""
